@@ -64,7 +64,7 @@ def gen_item(rng, users, groups, procs, exes):
     privs = []
     for i in range(rng.randint(0, 3)):
         p = {"name": "p%d" % i, "path": rng.choice(PATHS + ["/", "/metadata/identity"])}
-        if rng.random() < 0.3:
+        if rng.random() < 0.4:
             p["queryParameters"] = {rng.choice(["comp", "api-version", "Comp"]): rng.choice(["goalstate", "2021", "X"])}
         privs.append(p)
     ids = []
@@ -103,6 +103,10 @@ def gen_target(rng):
     """(request-target text, class)"""
     c = rng.random()
     base = rng.choice(PATHS)
+    if c < 0.07:
+        # a constrained query parameter occurs twice and the occurrences disagree: the FIRST one counts (query_pairs + find)
+        return base + rng.choice(["?comp=goalstate&comp=x", "?comp=x&comp=goalstate", "?COMP=X&comp=goalstate", "?comp=goalstate&x=1&Comp=certificates",
+                                  "?api-version=2021&api-version=x", "?api-version=x&Api-Version=2021", "?comp=2021&comp=goalstate&comp=X"]), "dup-query"
     if c < 0.40:
         q = rng.choice(["", "", "?comp=goalstate", "?api-version=2021", "?COMP=GoalState&x=1", "?x=1&comp=x", "?"])
         suf = rng.choice(["", "", "/x", "/Extra"])
@@ -484,6 +488,18 @@ def run(ctx):
     add(e2e.audit(e2e.WIRESERVER, uid=0), {}, ["/machine", "/machine"], ops={0: [setr("wireserver", deny)]}, cls="policy-change")
     add(e2e.audit(e2e.HOSTGA, uid=0), {"hostga": deny}, ["/machine", "/machine"], ops={0: [setr("hostga", None)]}, cls="policy-change")
     add(e2e.audit(e2e.OTHER, uid=5), {}, ["/x", "/x"], ops={0: [setr("imds", deny), setr("wireserver", deny)]}, cls="policy-change")
+    # duplicate query keys whose occurrences disagree about a constrained parameter: the first occurrence decides
+    def by_query(default, assigned, user):
+        return {"defaultAccess": default, "mode": "enforce", "id": "by-query", "rules": {
+            "privileges": [{"name": "p", "path": "/machine", "queryParameters": {"comp": "goalstate"}}],
+            "roles": [{"name": "r", "privileges": ["p"]}], "identities": [{"name": "i", "userName": user}],
+            "roleAssignments": [{"role": "r", "identities": ["i"]}] if assigned else []}}
+    dupq = ["/machine?comp=certificates&comp=goalstate", "/machine?comp=goalstate&comp=x", "/machine?COMP=GoalState&comp=x",
+            "/machine?x=1&comp=x&comp=goalstate", "/machine?comp=goalstate", "/machine?comp=x", "/machine?comp=goalstate&comp=goalstate"]
+    for d_, uid_, ep_, user_ in ((e2e.WIRESERVER, 0, "wireserver", "root"), (e2e.IMDS, e2e.NOBODY_UID, "imds", "nobody"),
+                                 (e2e.HOSTGA, 0, "hostga", "root")):
+        for default_, assigned_ in (("deny", True), ("allow", False), ("allow", True), ("deny", False)):
+            add(e2e.audit(d_, uid=uid_), {ep_: by_query(default_, assigned_, user_)}, dupq, cls="dup-query")
     # the policy lookup fails (key keeper actor dead) / the connection counter fails (agent status actor dead)
     for d in (e2e.WIRESERVER, e2e.HOSTGA, e2e.IMDS, e2e.OTHER, e2e.SELF):
         add(e2e.audit(d, uid=0), {}, ["/machine", "/machine", "/a/../b"], ops={0: [kill_kk]}, cls="lookup-failure")
@@ -570,6 +586,27 @@ def run(ctx):
     # ---------------- (a) implementation ----------------
     results = e2e.run_scenarios(ctx, scenarios, timeout=900, shards=None if ctx.quick else 8)
     ctx.log("e2e: %d scenarios run" % len(results))
+
+    # a client-side response TIMEOUT (nothing came back, no panic) is what a loaded machine does, not a verdict about the
+    # code: such a scenario is run once more on its own; if it then answers, the second run is what counts; if it times
+    # out again the check stops as an internal error (no verdict) rather than reporting a violation
+    def timed_out(res):
+        return not res.get("panics") and any(
+            (not r.get("complete")) and r.get("timeout") and not r.get("raw")
+            for c in res.get("connections", []) for r in c.get("responses", [])) or res.get("error") == "scenario timeout"
+    late = [i for i, r in enumerate(results) if timed_out(r)]
+    if late:
+        ctx.log("response timeouts in %d scenario(s), re-running them alone: %s" % (len(late), [scenarios[i]["name"] for i in late][:10]))
+        ctx.notes.append("scenarios re-run alone after a client-side response timeout: %s" % [scenarios[i]["name"] for i in late])
+        for i in late:
+            sc = dict(scenarios[i])
+            sc.setdefault("proxy_port", 20000 + i % 10000)
+            again = e2e.run_scenarios(ctx, [sc], timeout=900, shards=1)[0]
+            if timed_out(again):
+                raise RuntimeError("scenario %r: the client got no response within the timeout twice (alone the second time); "
+                                   "no verdict -- the machine is too loaded or the listener hangs: %s" % (scenarios[i]["name"], again.get("connections")))
+            results[i] = again
+    ctx.coverage["scenarios_rerun_after_timeout"] = len(late)
     ids_of_scenario = {}
     for c in cases:
         ids_of_scenario.setdefault(c["sc"], set()).update(rq["id"] for rq in c["requests"])
@@ -726,7 +763,7 @@ def run(ctx):
                 "two addresses where nothing listens} x caller {uid 0 / 65534 / unknown uid, is_admin 1/0/2/-1, two processes} x per-endpoint rule "
                 "document {absent, three modes incl. odd spellings, both defaults, missing sections, privileges by path and query, identities by "
                 "user/group/process/exe, undefined references} x request target {plain, '..' in path, '..' only in query, /provision-like, "
-                "percent-escapes, upper case, absolute-form, signature-exempt} x method/body; 1-3 requests per keep-alive connection with, between "
+                "percent-escapes, upper case, absolute-form, signature-exempt, duplicate query keys that disagree about a constrained parameter} x method/body; 1-3 requests per keep-alive connection with, between "
                 "requests, a rule change for an endpoint / the key-keeper actor killed (rules lookup failure) / the agent-status actor killed "
                 "(counter failure); plus %d hand-made corner connections: policy flips mid-connection, lookup and counter failures per destination, "
                 "every signature-exempt (method, url) pair of should_skip_sig in 4 spellings x 8 callers, the listener as its own destination (port 3080); "
@@ -748,7 +785,7 @@ def run(ctx):
         "the model is tied to the code by differential execution on the cases above, not by translation",
         "attribution records are injected through the cfg-guarded stand-in audit map (hook H1); the kernel side is C06's",
         "hyper's request parsing is outside the model: a syntactically invalid request never reaches the handler (it gets hyper's own 400)",
-        "the two 500 paths (counter / rules getter failing) need a dead actor and are covered by the model only",
+        "the two 500 paths (counter / rules getter failing) are produced by shutting down the runtime that hosts the agent-status / key-keeper actor (runner: killable + kill_actor)",
         "the OS view (user name, groups, exe path) used for claims is computed independently with pwd/grp//proc and compared with the agent's summaries",
     ]
     if os.environ.get("VERIF_SYSTEM_LEG", "1") == "1":
